@@ -550,6 +550,113 @@ def rule_r4(chk, F, c, cg, ctx):
                         "%s is reachable from a native entry point, so it can run while other threads exist" % p, p)
 
 
+def rule_r9(chk, F, c, cg, ctx):
+    """Dual of R4: while a thread counts as parked, a stop-the-world operation does not wait for it — so it must not
+    touch the managed heap.  `park(); make_iterable_current()` (filling the TLAB *after* parking) lets a collection run
+    between the read of the TLAB bounds and the write of the filler object, which then lands in re-used memory."""
+    r = chk.rule("C04.R9", "between park and unpark (and inside parked_scope closures) the runtime calls nothing that "
+                           "reads or writes managed-heap memory through a raw address")
+    PARK = RT + "threads::DoraThread::park"
+    UNPARK = RT + "threads::DoraThread::unpark"
+    TO_PTR = RT + "gc::Address::to_"
+    # raw heap accessors: functions that dereference a pointer obtained from Address::to_ptr / to_mut_ptr
+    acc = set()
+    for p in cg.bodies:
+        if not p.startswith(RT):
+            continue
+        B = ctx.body(p)
+        if not any(x.name and x.name.startswith(TO_PTR) for x in B.calls):
+            continue
+        defs = cfg.simple_defs(B)
+
+        def from_addr(local):
+            o = cfg.origin_place(B, local, [], defs)
+            return o[0] == "call" and (cfg.callee_name(cfg.callee_of(o[1]["f"])) or "").startswith(TO_PTR)
+        hit = False
+        for blk in B.blocks:
+            for st in blk["s"]:
+                if st[0] != "a":
+                    continue
+                if st[1][1] and st[1][1][0] == "*" and from_addr(st[1][0]):
+                    hit = True
+                rv = st[2]
+                if rv[0] == "use" and rv[1][0] in ("c", "m") and rv[1][1][1] and rv[1][1][1][0] == "*" and from_addr(rv[1][1][0]):
+                    hit = True
+        if hit:
+            acc.add(p)
+    r.floor("raw heap accessors (deref of Address::to_ptr/to_mut_ptr)", len(acc), 8)
+    memo = {}
+
+    def touches(f):
+        if f not in memo:
+            memo[f] = sorted(cg.reachable_from([f]) & acc)
+        return memo[f]
+
+    def parked_blocks(B):
+        parks = {x.block for x in B.calls if x.name and x.name.startswith(RT) and ctx.returns_parked(x.name)}
+        unparks = {x.block for x in B.calls if x.name == UNPARK}
+        if not parks:
+            return set()
+        reach = B.reachable(0)
+        st = {b: True for b in reach}
+        st[0] = False
+        changed = True
+        order = list(B._rpo(0))
+        while changed:
+            changed = False
+            for b in order:
+                if b == 0:
+                    continue
+                ps = [q for q in B.pred[b] if q in reach]
+                v = all((True if q in parks else (False if q in unparks else st[q])) for q in ps) if ps else False
+                if v != st[b]:
+                    st[b] = v
+                    changed = True
+        return {b for b, v in st.items() if v}
+    nsites = 0
+    # closures handed to parked_scope (not stop_the_world: its closure is the operation itself)
+    pscope = set()
+    for p in cg.bodies:
+        if not p.startswith(RT):
+            continue
+        B = ctx.body(p)
+        defs = None
+        for call in B.calls:
+            if call.name != RT + "threads::parked_scope":
+                continue
+            for a in call.args:
+                if a[0] == "k":
+                    continue
+                defs = defs or cfg.simple_defs(B)
+                o = cfg.origin(B, a, defs)
+                if o[0] == "agg" and o[1][0] == "closure":
+                    pscope.add(o[1][1])
+    r.floor("closures handed to parked_scope", len(pscope), 8)
+    for p in sorted(cg.bodies):
+        if not p.startswith(RT):
+            continue
+        B = ctx.body(p)
+        pb = set(B.reachable(0)) if p in pscope else parked_blocks(B)
+        if not pb:
+            continue
+        for x in B.calls:
+            if not x.name or not x.name.startswith(RT) or x.name in (PARK, UNPARK) or x.block not in pb:
+                continue
+            nsites += 1
+            t = touches(x.name)
+            key = "%s:%s" % (p, last(x.name))
+            r.instance(key + "@%d" % x.line, sample={"fn": p, "callee": x.name, "heap": t[:2]})
+            if t:
+                r.violation(key + ":heap-access-while-parked",
+                            "`%s` is called while the thread counts as parked (%s) and reaches %s, which reads/writes "
+                            "managed-heap memory through a raw address: a stop-the-world operation does not wait for a "
+                            "parked thread, so a collection can run in the middle of this access (e.g. between reading "
+                            "the TLAB bounds and writing the filler) and the write lands in memory that was reclaimed "
+                            "and re-used" % (last(x.name), "inside a parked_scope closure" if p in pscope
+                                             else "after park(), before any unpark", last(t[0])), x.where())
+    r.floor("runtime calls made while parked", nsites, 5)
+
+
 def native_entries(F):
     c = F.crate("dora_runtime")
     out = []
@@ -844,6 +951,7 @@ def run(chk, F):
     # direct pointer into the managed heap (same engine as C03.R2)
     from rules import c03
     c03.rule_r2(chk, F, c, cg, rid="C04.R8")
+    rule_r9(chk, F, c, cg, ctx)
     chk.assumptions += [
         "decides the shape of the protocol (ordering, pairing, transition table, blocking discipline); that these "
         "orderings suffice in every interleaving is a model-checking question and is not decided",
